@@ -17,3 +17,29 @@ package panos
 
 //vc:func (*State).ApplyCommands
 //vc:  requires[C11] !isCompareRun
+
+//vc:func (*PanConfig).checkDeviceName
+//vc:  set nameChecked = result == nil
+//vc:  ensures[C06] @reportedNameEqualsExpected result == nil ==> c.Devices.Entries[0].Hostname == expected
+//vc:  ensures[C06] nameChecked == (result == nil)
+
+// true only if HA is disabled, or Active-Passive/active, or Active-Active/active-primary
+//vc:func (*State).checkHA
+//vc:  set haActive = result
+//vc:  ensures[C06] @onlyActiveMember result ==> (ha.Enabled != "yes" || (ha.Mode == "Active-Passive" && ha.State == "active") || (ha.Mode == "Active-Active" && ha.State == "active-primary"))
+//vc:  ensures[C06] haActive == result
+
+//vc:func (*State).LoadDevice
+//vc:  requires[C06] !nameChecked && !haActive
+//vc:  ensures[C06] @hostnameVerified err == nil ==> nameChecked
+//vc:  ensures[C06] @activeMemberOnly err == nil ==> haActive
+
+//vc:func (*State).checkUnmanaged
+//vc:  set markerMissing = markerMissing || !strings.Contains(strings.ToLower(v.DisplayName), "netspoc")
+//vc:  ensures[C06] @vsysMarkerMeaning markerMissing == (old(markerMissing) || !strings.Contains(strings.ToLower(v.DisplayName), "netspoc"))
+//vc:  ensures[C06] @missingMarkerRecorded (old(markerMissing) ==> len(old(s.errUnmanaged)) > 0) ==> (markerMissing ==> len(s.errUnmanaged) > 0)
+
+//vc:func (*State).GetChanges
+//vc:  invariant[C06] in processVsysPairs 1 "for _, v1 := range d1.Vsys" (old(markerMissing) ==> len(old(s.errUnmanaged)) > 0) ==> (markerMissing ==> len(s.errUnmanaged) > 0)
+//vc:  invariant[C06] in processVsysPairs 2 "for _, v2 := range d2.Vsys" (old(markerMissing) ==> len(old(s.errUnmanaged)) > 0) ==> (markerMissing ==> len(s.errUnmanaged) > 0)
+//vc:  ensures[C06] @missingMarkerRecorded (old(markerMissing) ==> len(old(s.errUnmanaged)) > 0) ==> (markerMissing ==> len(s.errUnmanaged) > 0)
